@@ -472,3 +472,45 @@ def confirm_hang_in_subprocess(prop_id: str, case: dict,
         return True
     finally:
         os.unlink(path)
+
+
+def run_interleaved(env: ReadEnv, ds, specs: list, seed: int, pattern: int,
+                    policy: str = "random", max_steps: int = 300000):
+    """Two (or more) iterators of ONE dataset handle alive at the same time
+    and advanced alternately by one consumer (a training loop that validates
+    in the middle of an epoch).  specs: [(iface, split, opts, counter)] with
+    iface in {sync, conc}.  Returns (list of result lists, error string|None,
+    sched)."""
+    attrs = env.st["attrs"]
+    results = [[] for _ in specs]
+    sc = S.Sched(random.Random(seed), policy=policy, max_steps=max_steps)
+    err = None
+    with sim_bindings(), sc:
+        try:
+            its = [iter(make_iter(ds, iface, split, opts, counter))
+                   for iface, split, opts, counter in specs]
+            live = [True] * len(its)
+            step = 0
+            while any(live):
+                which = (pattern >> (step % 30)) % len(its)
+                step += 1
+                if not live[which]:
+                    which = live.index(True)
+                try:
+                    e = next(its[which])
+                except StopIteration:
+                    live[which] = False
+                    continue
+                results[which].append(dsgen.canon(e, attrs))
+            for it in its:
+                close = getattr(it, "close", None)
+                if close is not None:
+                    close()
+            sc.drain()
+        except S.SimDeadlock as e:
+            err = "deadlock: " + str(e)
+        except S.SimStepLimit as e:
+            err = "no termination: " + str(e)
+        except Exception as e:  # pylint: disable=broad-except
+            err = f"{type(e).__name__}: {str(e)[:200]}"
+    return results, err, sc
